@@ -345,10 +345,13 @@ func runOci(mode string, seed int64, tier string, sc *Script) map[string]any {
 			node := u.Nodes[n]
 			r := rng.Intn(100)
 			forcedRef, forcedAnn, plainGC := "", 0, false
+			var scriptedForeign *forcedOp
 			if step < len(forced) {
 				f := forced[step]
 				n, node = f.n, u.Nodes[f.n]
 				switch f.op {
+				case "foreign":
+					r, scriptedForeign = 75, &forced[step]
 				case "push":
 					r = 0
 				case "tag":
@@ -417,10 +420,10 @@ func runOci(mode string, seed int64, tier string, sc *Script) map[string]any {
 			case r < 74:
 				l := []string{"-", "0", "1", "2"}[rng.Intn(4)]
 				sc.Op(c.runQuery(c.store, []string{"tags", "last=" + l}), "o tags last=%s", l)
-			case r >= 74 && r < 77 && mode != "C06" && mode != "C09":
+			case r >= 74 && r < 77 && mode != "C06" && (mode != "C09" || scriptedForeign != nil):
 				// an external tool rewrites the layout: it keeps a link-closed part of the
 				// content and lists only the roots it chose in index.json
-				if !c.foreignRewrite(rng, annOf, autosave == 1, autogc == 1) {
+				if !c.foreignRewrite(rng, annOf, autosave == 1, autogc == 1, scriptedForeign) {
 					continue
 				}
 				queries("o ", c.store)
@@ -619,6 +622,7 @@ func runOci(mode string, seed int64, tier string, sc *Script) map[string]any {
 					queries("o vq ", s2)
 				case 2:
 					tarAppended = rng.Intn(2) == 0
+					tarPAX = nextTarPAX()
 					if err := tarDir(dir, dir+".tar"); err != nil {
 						panic(err)
 					}
@@ -653,7 +657,7 @@ func runOci(mode string, seed int64, tier string, sc *Script) map[string]any {
 // foreignRewrite simulates another tool (or an operator) rewriting the layout on disk: a
 // link-closed subset of the stored content is kept, index.json lists only chosen roots
 // (with or without reference names), and the directory is opened afresh.
-func (c *ociCase) foreignRewrite(rng *rand.Rand, annOf func(n, ann int) map[string]string, autosave, autogc bool) bool {
+func (c *ociCase) foreignRewrite(rng *rand.Rand, annOf func(n, ann int) map[string]string, autosave, autogc bool, scripted *forcedOp) bool {
 	onDisk := map[int]bool{}
 	var cands []int
 	for _, n := range c.u.Nodes {
@@ -669,6 +673,9 @@ func (c *ociCase) foreignRewrite(rng *rand.Rand, annOf func(n, ann int) map[stri
 	}
 	rng.Shuffle(len(cands), func(i, j int) { cands[i], cands[j] = cands[j], cands[i] })
 	roots := cands[:1+rng.Intn(min(3, len(cands)))]
+	if scripted != nil {
+		roots = scripted.roots
+	}
 	keep := map[int]bool{}
 	var walk func(int)
 	walk = func(n int) {
@@ -699,7 +706,7 @@ func (c *ociCase) foreignRewrite(rng *rand.Rand, annOf func(n, ann int) map[stri
 	idx := ocispec.Index{MediaType: ocispec.MediaTypeImageIndex, Manifests: []ocispec.Descriptor{}}
 	idx.SchemaVersion = 2
 	var entries []string
-	for _, r := range roots {
+	for ri, r := range roots {
 		ann := rng.Intn(3)
 		names := []string{"-"}
 		switch rng.Intn(4) {
@@ -707,6 +714,9 @@ func (c *ociCase) foreignRewrite(rng *rand.Rand, annOf func(n, ann int) map[stri
 			names = []string{fmt.Sprint(rng.Intn(4))}
 		case 2:
 			names = []string{fmt.Sprint(rng.Intn(4)), fmt.Sprint(rng.Intn(4))}
+		}
+		if scripted != nil {
+			ann, names = 0, []string{scripted.names[ri]}
 		}
 		for _, nm := range names {
 			d := c.u.Nodes[r].Desc
@@ -749,10 +759,12 @@ func (c *ociCase) foreignRewrite(rng *rand.Rand, annOf func(n, ann int) map[stri
 
 // forcedOp is one scripted step at the head of a history.
 type forcedOp struct {
-	op  string // push | tag | delete | gc
-	n   int
-	ref string
-	ann int
+	op    string // push | tag | delete | gc | foreign
+	n     int
+	ref   string
+	ann   int
+	roots []int    // foreign: the nodes index.json lists
+	names []string // foreign: the reference name of each ("-": none)
 }
 
 type ociCorpusCase struct {
@@ -798,6 +810,23 @@ func ociCorpus() []ociCorpusCase {
 		lk := u.AddBlob(ocispec.MediaTypeImageLayer, []byte("corpus-lk"))
 		k := u.AddImage(KOCIManifest, cfg.ID, []int{lk.ID}, -1, "", map[string]string{"k": "keep"})
 		ops := append(pushAllOps(u), forcedOp{op: "tag", n: g.ID, ref: "t0"}, forcedOp{op: "tag", n: k.ID, ref: "t1"}, forcedOp{op: "delete", n: g.ID})
+		out = append(out, ociCorpusCase{u, ops})
+	}
+	{
+		// another tool trimmed index.json to a tagged image and the head of a referrer chain
+		// of three; the referrers in between are stored but not listed.  A collection keeps
+		// the whole chain: every link leads, subject by subject, to the tagged image
+		u := NewUniverse()
+		cfg := u.AddBlob(ocispec.MediaTypeImageConfig, []byte(`{"corpus":"trimmed-chain"}`))
+		layer := u.AddBlob(ocispec.MediaTypeImageLayer, []byte("corpus-tc-layer"))
+		img := u.AddImage(KOCIManifest, cfg.ID, []int{layer.ID}, -1, "", map[string]string{"k": "img"})
+		prev := img
+		for k := 1; k <= 3; k++ {
+			b := u.AddBlob("application/vnd.verif.link", []byte(fmt.Sprintf("corpus-tc-link-%d", k)))
+			prev = u.AddImage(KOCIManifest, cfg.ID, []int{b.ID}, prev.ID, "application/vnd.verif.link", map[string]string{"k": fmt.Sprint("r", k)})
+		}
+		u.AddBlob("application/vnd.verif.data", []byte("corpus-tc-garbage"))
+		ops := append(pushAllOps(u), forcedOp{op: "foreign", roots: []int{img.ID, prev.ID}, names: []string{"0", "-"}}, forcedOp{op: "gc"}, forcedOp{op: "gc"})
 		out = append(out, ociCorpusCase{u, ops})
 	}
 	return out
